@@ -43,6 +43,7 @@ def gen_c13_random(rnd, tier):
         a, b = rnd.choice(PYTH), rnd.choice(PYTH[:4])
         M = _mm([[a[0], -a[1], 0], [a[1], a[0], 0], [0, 0, a[2]]], [[b[2], 0, 0], [0, b[0], -b[1]], [0, b[1], b[0]]])
         T = {'M': M, 'H': a[2] * b[2], 't': [rnd.randint(-20, 20) for _k in range(3)]}
-        out.append({'m': 'section', 'op': rnd.choice(('section', 'split')), 'wd': 4000, 'name': 'rbox', 'vpos': vpos, 'faces': BOXF,
-                    'convex': True, 'n': nrm, 'dn': dn, 'dd': 8, 'T': T, 'sc': rnd.choice((0, 0, -10, -7, 3))})
+        op = rnd.choice(('section', 'split'))
+        out.append({'m': 'section', 'op': op, 'wd': 4000, 'name': 'rbox', 'vpos': vpos, 'faces': BOXF,
+                    'convex': True, 'n': nrm, 'dn': dn, 'dd': 8, 'T': T, 'sc': rnd.choice((0, 0, -10, -7, 3)), 'solid': rnd.choice((0, 0, 1, 2)) if op == 'split' else rnd.choice((0, 1))})     # (a hull is re-triangulated: only the split clauses apply to it)
     return out
